@@ -108,6 +108,31 @@ Proof.
   rewrite A1, A2, A3, A4, A5, A6, A7, A8, A9, A10, A11. reflexivity.
 Qed.
 
+(* the part of the coordinator's well-formedness that the views rely on (also holds between _prepare_rebalance and
+   _complete_join, where "not completely joined" may fail) *)
+Record wf_cw (c : coord) : Prop := {
+  ww_nodup : nodupb (ids (c_ents c)) = true;
+  ww_0e : memb 0 (ids (c_ents c)) = false;
+  ww_0p : memb 0 (c_pend c) = false;
+  ww_pend : forallb (fun x => negb (memb x (ids (c_ents c)))) (c_pend c) = true;
+  ww_empty : negb (cstate_eqb (c_st c) CEmpty) || is_none (hd_error (c_ents c)) = true;
+  ww_jp : cstate_eqb (c_st c) CPreparing || forallb (fun e => negb (e_jp e)) (c_ents c) = true;
+  ww_sp : cstate_eqb (c_st c) CCompleting || forallb (fun e => negb (e_sp e)) (c_ents c) = true;
+  ww_gen : match c_st c with CCompleting | CStable => negb (c_gen c =? 0) | _ => true end = true }.
+Lemma wf_cw_of_wf : forall c, wf_c c = true -> wf_cw c.
+Proof.
+  intros c H. pose proof (wf_c_parts c H) as W. constructor;
+    [exact (wc_nodup c W) | exact (wc_0e c W) | exact (wc_0p c W) | exact (wc_pend c W) | exact (wc_empty c W)
+    | exact (wc_jp c W) | exact (wc_sp c W)|].
+  pose proof (wc_leader c W) as Hl. destruct (c_st c); try reflexivity; apply andb_true_iff in Hl; destruct Hl as [_ Hl]; exact Hl.
+Qed.
+Lemma wcw_zfacts : forall c, wf_cw c -> zfacts c.
+Proof.
+  intros c W. unfold zfacts. repeat split; [exact (ww_0e c W) | exact (ww_0p c W) | |].
+  - unfold ent_jp. rewrite (find_ent_none 0 _ (ww_0e c W)). reflexivity.
+  - unfold ent_sp. rewrite (find_ent_none 0 _ (ww_0e c W)). reflexivity.
+Qed.
+
 Lemma wf_c_zfacts : forall c, wf_c c = true -> zfacts c.
 Proof.
   intros c H. destruct (wf_c_parts c H). unfold zfacts. repeat split; try assumption.
@@ -258,21 +283,22 @@ Proof.
   destruct (Nat.eqb_spec G 0), (Nat.eqb_spec g 0), (Nat.eqb_spec g G), (Nat.leb_spec g G); simpl; try reflexivity; lia.
 Qed.
 
-Lemma pend_not_ent : forall c x, wf_c c = true -> memb x (ids (c_ents c)) = true -> memb x (c_pend c) = false.
+Lemma pend_not_ent_w : forall c x, wf_cw c -> memb x (ids (c_ents c)) = true -> memb x (c_pend c) = false.
 Proof.
-  intros c x H He. destruct (wf_c_parts c H).
-  destruct (memb x (c_pend c)) eqn:Ep; [|reflexivity]. exfalso.
-  apply memb_In in Ep. rewrite forallb_forall in wc_pend0. specialize (wc_pend0 x Ep). rewrite He in wc_pend0. discriminate.
+  intros c x W He. destruct (memb x (c_pend c)) eqn:Ep; [|reflexivity]. exfalso.
+  apply memb_In in Ep. pose proof (ww_pend c W) as Hp. rewrite forallb_forall in Hp. specialize (Hp x Ep). rewrite He in Hp. discriminate.
 Qed.
+Lemma pend_not_ent : forall c x, wf_c c = true -> memb x (ids (c_ents c)) = true -> memb x (c_pend c) = false.
+Proof. intros c x H. apply pend_not_ent_w. apply wf_cw_of_wf. exact H. Qed.
 
-Lemma cons_id_nat : forall c x, wf_c c = true ->
+Lemma cons_id_nat : forall c x, wf_cw c ->
   cons_id (x =? 0) (memb x (ids (c_ents c))) (memb x (c_pend c)) (ent_jp c x) (ent_sp c x) = true.
 Proof.
-  intros c x H. destruct (wf_c_zfacts c H) as (Z1 & Z2 & Z3 & Z4). unfold cons_id.
+  intros c x H. destruct (wcw_zfacts c H) as (Z1 & Z2 & Z3 & Z4). unfold cons_id.
   destruct (Nat.eqb_spec x 0) as [->|Hx].
   - rewrite Z1, Z2, Z3, Z4. reflexivity.
   - destruct (memb x (ids (c_ents c))) eqn:He.
-    + rewrite (pend_not_ent c x H He). reflexivity.
+    + rewrite (pend_not_ent_w c x H He). reflexivity.
     + unfold ent_jp, ent_sp. rewrite (find_ent_none x _ He). simpl. destruct (memb x (c_pend c)); reflexivity.
 Qed.
 
@@ -284,26 +310,27 @@ Proof.
   specialize (H e Hin). apply negb_true_iff in H. exact H.
 Qed.
 
-Lemma cons_st_nat : forall c x, wf_c c = true ->
+Lemma cons_st_nat : forall c x, wf_cw c ->
   cons_st (c_st c) (c_gen c =? 0) (memb x (ids (c_ents c))) (ent_jp c x) (ent_sp c x) = true.
 Proof.
-  intros c x H. destruct (wf_c_parts c H). unfold cons_st, ent_jp, ent_sp.
+  intros c x W. pose proof (ww_empty c W) as We. pose proof (ww_jp c W) as Wj. pose proof (ww_sp c W) as Ws. pose proof (ww_gen c W) as Wg.
+  unfold cons_st, ent_jp, ent_sp.
   apply andb_true_iff; split; [apply andb_true_iff; split; [apply andb_true_iff; split|]|].
   - destruct (cstate_eqb (c_st c) CEmpty); [|reflexivity]. cbn [negb orb] in *.
     destruct (c_ents c); [reflexivity | discriminate].
-  - apply orb_true_iff in wc_jp0. destruct wc_jp0 as [E|E]; [rewrite E; reflexivity|].
+  - apply orb_true_iff in Wj. destruct Wj as [E|E]; [rewrite E; reflexivity|].
     rewrite (find_ent_flag e_jp x _ E). apply orb_true_r.
-  - apply orb_true_iff in wc_sp0. destruct wc_sp0 as [E|E]; [rewrite E; reflexivity|].
+  - apply orb_true_iff in Ws. destruct Ws as [E|E]; [rewrite E; reflexivity|].
     rewrite (find_ent_flag e_sp x _ E). apply orb_true_r.
-  - destruct (c_st c); try reflexivity; apply andb_true_iff in wc_leader0; destruct wc_leader0 as [_ G]; exact G.
+  - destruct (c_st c); try reflexivity; exact Wg.
 Qed.
 
 Lemma eqb_refl_b : forall b, Bool.eqb b b = true.
 Proof. destruct b; reflexivity. Qed.
 
-Lemma cons_absm : forall c m, wf_c c = true -> m_live m = true -> wf_m c m = true -> cons_a (absm c m) = true.
+Lemma cons_absm_w : forall c m, wf_cw c -> m_live m = true -> wf_m c m = true -> cons_a (absm c m) = true.
 Proof.
-  intros c m Hc L W. destruct (wf_c_zfacts c Hc) as (Z1 & Z2 & Z3 & Z4).
+  intros c m Hc L W. destruct (wcw_zfacts c Hc) as (Z1 & Z2 & Z3 & Z4).
   unfold cons_a.
   apply andb_true_iff; split; [apply andb_true_iff; split; [apply andb_true_iff; split; [apply andb_true_iff; split;
     [apply andb_true_iff; split; [apply andb_true_iff; split; [apply andb_true_iff; split; [apply andb_true_iff; split|]|]|]|]|]|]|].
@@ -365,3 +392,5 @@ Proof.
   destruct (react1_keeps rid m x) as (A' & B' & C' & D' & E' & F' & G').
   rewrite A, B, C, D, E, F, G. repeat split; assumption.
 Qed.
+Lemma cons_absm : forall c m, wf_c c = true -> m_live m = true -> wf_m c m = true -> cons_a (absm c m) = true.
+Proof. intros c m H. apply cons_absm_w. apply wf_cw_of_wf. exact H. Qed.
